@@ -135,6 +135,7 @@ def run(rep, tier):
                 if len(a_) > 1 and cast.decl_ref(a_[1]):
                     read_vars.add(cast.decl_ref(a_[1]))
         todo, seen, clips, sizes, other = [cast.call_args(mc[0])[2]], set(), [], 0, []
+        constant_nodes = set()
         while todo:
             e = todo.pop()
             for x in walk(e):
@@ -145,11 +146,13 @@ def run(rep, tier):
                             v = cast.const_int(a_, tb)
                             if v is not None:
                                 clips.append((nm, v))
+                                for y in walk(a_):
+                                    constant_nodes.add(id(y))
                     elif nm == 'size':
                         sizes += 1
                     elif nm not in ('data',):
                         other.append(nm)
-                if x['kind'] in ('BinaryOperator', 'ConditionalOperator'):
+                if x['kind'] in ('BinaryOperator', 'ConditionalOperator') and id(x) not in constant_nodes:
                     other.append(x.get('opcode', '?:'))
                 if x['kind'] == 'DeclRefExpr':
                     r = (x.get('referencedDecl') or {})
